@@ -160,18 +160,22 @@ def discharge_all(tasks, timeout_s=30, jobs=None, second=True, progress=None):
         if t.smt2 is None and results[t.key].get('smt2'):
             t.smt2 = results[t.key].pop('smt2')
     if second:
-        for t in tasks:
-            r = results[t.key]
-            if t.smt2 is None:
-                continue
-            if r['status'] in ('unknown', 'error'):
-                tried = [r]
-                for r2 in second_opinions(t.smt2, timeout_s):
-                    tried.append(r2)
-                    if r2['status'] == 'unsat':
-                        r2['earlier'] = [{'backend': x['backend'], 'status': x['status']} for x in tried[:-1]]
-                        results[t.key] = r2
-                        break
-                else:
-                    r['others'] = [{'backend': x['backend'], 'status': x['status']} for x in tried[1:]]
+        todo = [t for t in tasks if t.smt2 is not None and results[t.key]['status'] in ('unknown', 'error')]
+
+        def opinions(t):
+            return t, second_opinions(t.smt2, timeout_s)
+        if todo:
+            from concurrent.futures import ThreadPoolExecutor
+            with ThreadPoolExecutor(max_workers=max(1, min(8, jobs))) as ex:
+                for t, tried2 in ex.map(opinions, todo):
+                    r = results[t.key]
+                    tried = [r]
+                    for r2 in tried2:
+                        tried.append(r2)
+                        if r2['status'] == 'unsat':
+                            r2['earlier'] = [{'backend': x['backend'], 'status': x['status']} for x in tried[:-1]]
+                            results[t.key] = r2
+                            break
+                    else:
+                        r['others'] = [{'backend': x['backend'], 'status': x['status']} for x in tried[1:]]
     return results
